@@ -3,6 +3,7 @@
   coarsens to its coarsest format once and a second pass changes nothing.
 -/
 import PcVerif.Lemmas.SrtRoundTrip
+import PcVerif.Lemmas.VttRoundTrip
 namespace PcVerif.Props.C08
 
 inductive Res | ms | frame
@@ -79,5 +80,29 @@ example : ∃ c : RCap, Srt.mergeSame [] [c] ≠ [] ∧ (∀ x ∈ Srt.mergeSame
     Srt.textsOf c.nodes = ["hi ".toList, "1 --> 2".toList] :=
   ⟨⟨0, 0, [.text "hi".toList, .brk, .text "".toList, .brk, .text "1 --> 2".toList]⟩, by simp [Srt.mergeSame],
     by intro x hx; simp [Srt.mergeSame] at hx; subst hx; decide, by decide⟩
+
+/-! ### a second real hop: WebVTT -/
+
+open PcVerif in
+/-- **C08 (WebVTT hop).** for every list of captions made of text lines — any number of captions, any instants, lines of
+    any characters (`&`, `<`, `>`, `-->`, entity-looking and tag-looking text included) as long as a line is not empty,
+    has no white space at its ends and no line-break character — reading what `WebVTTWriter` wrote returns exactly these
+    captions: the same lines, separated by breaks, and the instants truncated to whole milliseconds.  (Writer model:
+    `Model/VttWriter.lean`, tied to the implementation on whole documents by C03's correspondence.) -/
+theorem vtt_hop (cs : List VttW.CapIn) (hne : cs ≠ []) (hok : ∀ c ∈ cs, c.OK) :
+    Vtt.read {} (VttW.writePlain (cs.map VttW.toRCap)) = .ok (cs.map VttW.readBack) :=
+  VttW.vtt_write_read cs hne hok
+
+open PcVerif in
+/-- the hypotheses of `vtt_hop` are satisfiable -/
+example : VttW.CapIn.OK ((0 : Rat), (1 : Rat), ["Q&A --> <i>".toList, "&lt;x".toList]) := by
+  refine ⟨by simp, ?_⟩
+  intro t ht
+  simp only [List.mem_cons, List.mem_nil_iff, or_false] at ht
+  rcases ht with rfl | rfl
+  · exact ⟨by decide, ⟨by intro c hc; simp at hc; subst hc; decide, by intro c hc; simp at hc; subst hc; decide⟩,
+      by unfold Srt.NoBreak; decide⟩
+  · exact ⟨by decide, ⟨by intro c hc; simp at hc; subst hc; decide, by intro c hc; simp at hc; subst hc; decide⟩,
+      by unfold Srt.NoBreak; decide⟩
 
 end PcVerif.Props.C08
